@@ -124,11 +124,18 @@ def createAndRegister (d : PDesc) (c : Cfg) (tokens : List Nat) (now : Int) : Ex
   | some d2 => .ok (some d2)
   | none => .ok (if changed then some d1 else none)
 
-/-- `waitPartitionAndRegisterOwner` (gives up with the context error while the partition does not exist) -/
+/-- the poll of `waitPartitionAndRegisterOwner`: `getRing` (a plain read, OUTSIDE any CAS) + `HasPartition` -/
+def pollSees (d : PDesc) (c : Cfg) : Bool := (d.get? c.pid).isSome
+
+/-- the CAS function of `waitPartitionAndRegisterOwner`: an UNCONDITIONAL `AddOrUpdateOwner` — it does not look
+whether the partition (still) exists; existence was polled before, on a possibly older ring (`pollSees`). -/
 def waitAndRegister (d : PDesc) (c : Cfg) (now : Int) : Except Err (Option PDesc) :=
-  match d.get? c.pid with
-  | none => .error .ctx
-  | some _ => .ok (addOrUpdateOwner d c.ownerID oActive c.pid now)
+  .ok (addOrUpdateOwner d c.ownerID oActive c.pid now)
+
+/-- `waitPartitionAndRegisterOwner` as a whole when nothing interferes between its poll and its CAS: it gives up
+with the context error while the partition does not exist, else registers. -/
+def waitSequential (d : PDesc) (c : Cfg) (now : Int) : Except Err (Option PDesc) :=
+  if pollSees d c then waitAndRegister d c now else .error .ctx
 
 /-- `reconcileOwnedPartition` -/
 def reconcileOwned (d : PDesc) (c : Cfg) (now : Int) : Except Err (Option PDesc) :=
@@ -159,7 +166,7 @@ inductive Op
   | lock (pid : Int) (locked : Bool) (now : Int)
   | removeMultiOwner (inst : String) (pid : Int)
   | create (c : Cfg) (tokens : List Nat) (now : Int)
-  | wait (c : Cfg) (now : Int)
+  | wait (c : Cfg) (now : Int)                          -- the registration CAS of waitPartitionAndRegisterOwner (after a successful poll)
   | reconcileOwned (c : Cfg) (now : Int)
   | reconcileOthers (c : Cfg) (now : Int)
   | stopping (c : Cfg) (remove : Bool)
@@ -192,8 +199,10 @@ def apply (d : PDesc) (op : Op) : PDesc :=
 
 /-! ### the service: `starting`, the `running` select loop, `stopping`
 
-`PartitionInstanceLifecycler` is a `services.BasicService`: `starting` (create-or-wait, then register) — if it
-fails the service is Failed and nothing else runs; `running` reconciles once on entry and then reacts, one
+`PartitionInstanceLifecycler` is a `services.BasicService`: `starting` either creates-and-registers in one CAS,
+or POLLS the ring (plain reads) until the partition exists and then registers in a CAS that no longer checks
+existence — other actors may write between the poll and that CAS; if `starting` fails the service is Failed and
+nothing else runs; `running` reconciles once on entry and then reacts, one
 event per loop iteration, to the ticker, to a function received on `actorChan` (`ChangePartitionState`) and
 to `ctx.Done()`; after that `stopping` runs once. Several lifecyclers and a `PartitionRingEditor` share the
 ring; every handler is one CAS on it, so a schedule is a sequence of `Act`s. -/
@@ -211,7 +220,7 @@ inductive Event
   | stop                                  -- `<-ctx.Done()`, followed by `stopping`
   deriving Repr
 
-inductive Phase | new | running | terminated | failed
+inductive Phase | new | polled | running | terminated | failed
   deriving DecidableEq, Repr
 
 def Loop.startOp (l : Loop) (tokens : List Nat) (now : Int) : Op :=
@@ -225,7 +234,8 @@ def Loop.eventOps (l : Loop) : Event → List Op
   | .stop => [.stopping l.cfg l.removeOwnerOnShutdown]
 
 inductive Act
-  | start (i : Nat) (tokens : List Nat) (now : Int) (first : Int × Int)  -- StartAsync of lifecycler `i`
+  | poll (i : Nat)                                                      -- `starting` without create-on-startup: the poll sees the partition
+  | start (i : Nat) (tokens : List Nat) (now : Int) (first : Int × Int)  -- the CAS of `starting` + the reconcile on entering `running`
   | event (i : Nat) (e : Event)                                         -- one loop iteration of lifecycler `i`
   | editor (op : Op)                                                    -- a `PartitionRingEditor` call
   deriving Repr
@@ -236,12 +246,16 @@ structure Sys where
 
 def setPhase (f : Nat → Phase) (i : Nat) (p : Phase) : Nat → Phase := fun j => if j = i then p else f j
 
+/-- `starting` can perform its CAS: at once when it creates the partition, after a successful poll otherwise -/
+def Loop.canStart (l : Loop) (p : Phase) : Bool := if l.createOnStartup then p == .new else p == .polled
+
 /-- the store updates the implementation performs for `a` in state `s` (`[]` if `a` is not enabled) -/
 def actOps (ls : List Loop) (s : Sys) : Act → List Op
+  | .poll _ => []
   | .start i tokens now first =>
     match ls[i]? with
     | some l =>
-      if s.phase i = .new then
+      if l.canStart (s.phase i) then
         match step s.ring (l.startOp tokens now) with
         | .error _ => [l.startOp tokens now]                         -- starting failed: `running` is never entered
         | .ok _ => l.startOp tokens now :: l.tickOps first.1 first.2
@@ -254,10 +268,14 @@ def actOps (ls : List Loop) (s : Sys) : Act → List Op
   | .editor op => [op]
 
 def actPhase (ls : List Loop) (s : Sys) : Act → Nat → Phase
+  | .poll i =>
+    match ls[i]? with
+    | some l => if !l.createOnStartup && s.phase i = .new && pollSees s.ring l.cfg then setPhase s.phase i .polled else s.phase
+    | none => s.phase
   | .start i tokens now _ =>
     match ls[i]? with
     | some l =>
-      if s.phase i = .new then
+      if l.canStart (s.phase i) then
         match step s.ring (l.startOp tokens now) with
         | .error _ => setPhase s.phase i .failed
         | .ok _ => setPhase s.phase i .running
